@@ -2,7 +2,8 @@
    independently of the serializer pipeline of Model/TomlValue.v:
 
      sections_of : the canonical document of a table: its own key/value lines first, then its
-                   arrays of tables, then its sub-tables, depth first, every group in map order;
+                   arrays of tables and sub-tables, depth first, in the order the serializer calls
+                   `serialize_entry` (toml::Value: three loops; a struct or map: its own order);
      read_back   : a tiny interpreter of abstract documents (what a TOML reader does with headers
                    and key/value lines): every section's pairs are placed at its header path;
                    anything TOML forbids (a key or a table defined twice, a header through a value)
@@ -27,37 +28,52 @@ Definition is_plain (v : tv) : bool := is_line v && negb (is_mixed v).
 (* ------------------------------------------------------------------------------------------ *)
 (** * the canonical document *)
 
-(* a value on a key/value line: inline tables list plain values, then arrays holding tables, then tables *)
-Fixpoint inline_of (ml : bool) (v : tv) : iv :=
+(* Two switches say who calls `serialize_entry` for the entries of a table, hence in which order:
+     three : for the table at hand   — true: `impl Serialize for Value` (three loops),
+                                       false: the map / the struct itself, in its own order;
+     tn    : for every table below it (inside arrays, inline tables, sub-tables) likewise.
+   toml::Value -> (true, true); toml::Table at the root -> (false, true); a derived struct or any
+   other Serialize impl, at every level -> (false, false). *)
+
+(* a value on a key/value line: an inline table lists its entries in the serializer's order *)
+Fixpoint inline_of (ml tn : bool) (v : tv) : iv :=
   match v with
   | TLeaf t => VLeaf t
-  | TArr l => VArr (ml && (2 <=? length l)%nat) (map (inline_of ml) l)
+  | TArr l => VArr (ml && (2 <=? length l)%nat) (map (inline_of ml tn) l)
   | TTab m =>
-    VInl ((fix p1 (m : list (bytes * tv)) : list (bytes * iv) :=
-             match m with
-             | [] => []
-             | (k, x) :: r => if pass1 x then (k, inline_of ml x) :: p1 r else p1 r
-             end) m ++
-          (fix p2 (m : list (bytes * tv)) : list (bytes * iv) :=
-             match m with
-             | [] => []
-             | (k, x) :: r => if pass2 x then (k, inline_of ml x) :: p2 r else p2 r
-             end) m ++
-          (fix p3 (m : list (bytes * tv)) : list (bytes * iv) :=
-             match m with
-             | [] => []
-             | (k, x) :: r => if pass3 x then (k, inline_of ml x) :: p3 r else p3 r
-             end) m)
+    VInl (if tn
+          then
+            (* plain values, then arrays holding tables, then tables *)
+            (fix p1 (m : list (bytes * tv)) : list (bytes * iv) :=
+               match m with
+               | [] => []
+               | (k, x) :: r => if pass1 x then (k, inline_of ml tn x) :: p1 r else p1 r
+               end) m ++
+            (fix p2 (m : list (bytes * tv)) : list (bytes * iv) :=
+               match m with
+               | [] => []
+               | (k, x) :: r => if pass2 x then (k, inline_of ml tn x) :: p2 r else p2 r
+               end) m ++
+            (fix p3 (m : list (bytes * tv)) : list (bytes * iv) :=
+               match m with
+               | [] => []
+               | (k, x) :: r => if pass3 x then (k, inline_of ml tn x) :: p3 r else p3 r
+               end) m
+          else
+            (fix all (m : list (bytes * tv)) : list (bytes * iv) :=
+               match m with
+               | [] => []
+               | (k, x) :: r => (k, inline_of ml tn x) :: all r
+               end) m)
   end.
 
-Definition lines_where (ml : bool) (p : tv -> bool) (m : list (bytes * tv)) : list (bytes * iv) :=
-  map (fun kv => (fst kv, inline_of ml (snd kv))) (filter (fun kv => p (snd kv)) m).
+Definition lines_where (ml tn : bool) (p : tv -> bool) (m : list (bytes * tv)) : list (bytes * iv) :=
+  map (fun kv => (fst kv, inline_of ml tn (snd kv))) (filter (fun kv => p (snd kv)) m).
 
-(* the key/value lines of a table.  three = true: the table is written by `impl Serialize for Value`
-   (plain values, then mixed arrays); three = false: by `impl Serialize for Map` (map order) *)
-Definition own_lines (ml three : bool) (m : list (bytes * tv)) : list (bytes * iv) :=
-  if three then lines_where ml is_plain m ++ lines_where ml is_mixed m
-  else lines_where ml is_line m.
+(* the key/value lines of a table: three loops -> plain values, then mixed arrays; else map order *)
+Definition own_lines (ml three tn : bool) (m : list (bytes * tv)) : list (bytes * iv) :=
+  if three then lines_where ml tn is_plain m ++ lines_where ml tn is_mixed m
+  else lines_where ml tn is_line m.
 
 (* is the table's own section written?  always for the root and for array elements; a [header]
    is left out exactly when the table has entries but no key/value line *)
@@ -67,12 +83,11 @@ Definition own_visible (kind : skind) (m : list (bytes * tv)) (lines : list (byt
   | _ => true
   end.
 
-(* sections of the table v placed at path p.  The sub-sections of the nested tables are always
-   written by `impl Serialize for Value` (three loops); `three` is about v itself. *)
-Fixpoint sections_at (ml three : bool) (v : tv) (p : path) (kind : skind) : list section :=
+(* sections of the table v placed at path p *)
+Fixpoint sections_at (ml three tn : bool) (v : tv) (p : path) (kind : skind) : list section :=
   match v with
   | TTab m =>
-    let lines := own_lines ml three m in
+    let lines := own_lines ml three tn m in
     (if own_visible kind m lines then [mkSec p kind lines] else []) ++
     (if three
      then
@@ -86,7 +101,7 @@ Fixpoint sections_at (ml three : bool) (v : tv) (p : path) (kind : skind) : list
                   | TArr l => (fix elems (l : list tv) : list section :=
                                  match l with
                                  | [] => []
-                                 | e :: q => sections_at ml true e (p ++ [k]) KArr ++ elems q
+                                 | e :: q => sections_at ml tn tn e (p ++ [k]) KArr ++ elems q
                                  end) l
                   | _ => []
                   end
@@ -97,21 +112,21 @@ Fixpoint sections_at (ml three : bool) (v : tv) (p : path) (kind : skind) : list
           match m with
           | [] => []
           | (k, x) :: r =>
-            (match x with TTab _ => sections_at ml true x (p ++ [k]) KStd | _ => [] end) ++ tabs r
+            (match x with TTab _ => sections_at ml tn tn x (p ++ [k]) KStd | _ => [] end) ++ tabs r
           end) m
      else
-       (* arrays of tables and sub-tables as the map yields them *)
+       (* arrays of tables and sub-tables as the serializer yields them *)
        (fix subs (m : list (bytes * tv)) : list section :=
           match m with
           | [] => []
           | (k, x) :: r =>
             (match x with
-             | TTab _ => sections_at ml true x (p ++ [k]) KStd
+             | TTab _ => sections_at ml tn tn x (p ++ [k]) KStd
              | TArr l => if is_aot x
                          then (fix elems (l : list tv) : list section :=
                                  match l with
                                  | [] => []
-                                 | e :: q => sections_at ml true e (p ++ [k]) KArr ++ elems q
+                                 | e :: q => sections_at ml tn tn e (p ++ [k]) KArr ++ elems q
                                  end) l
                          else []
              | TLeaf _ => []
@@ -121,8 +136,8 @@ Fixpoint sections_at (ml three : bool) (v : tv) (p : path) (kind : skind) : list
   end.
 
 (* the document of a root table *)
-Definition sections_of (ml three : bool) (m : list (bytes * tv)) : list section :=
-  sections_at ml three (TTab m) [] KRoot.
+Definition sections_of (ml three tn : bool) (m : list (bytes * tv)) : list section :=
+  sections_at ml three tn (TTab m) [] KRoot.
 
 (* ------------------------------------------------------------------------------------------ *)
 (** * reading a document back *)
